@@ -44,7 +44,9 @@ var (
 	c17Hosts   = []string{"example.org", "a", "a.b-c.d", "1.2.3.4", "[::1]", "[fe80::1%25eth0]", "[2001:db8::ff]", "", "[h]", "xn--bcher-kva.example",
 		"[2001:DB8::1]", "[0:0:0:0:0:0:0:1]", "[::ffff:192.0.2.1]", "[2001:0db8::0001]", "EXAMPLE.org", "010.1.2.3",
 		"[fe80::1%2511]", "[fe80::1%11]", "[fe80::1%25]", "[fe80::1%2525x]", "[fe80::1%41]", "[fe80::1%en0]"}
-	c17Ports   = []string{"", ":", ":0", ":1", ":3478", ":5349", ":65535", ":65536", ":99999", ":-1", ":+5", ":12a", ":99999999999999999999", ":0080", ":0100", ":09", ":4294967297", ":0x50", ":3_478", ":0b11", ":0o17", ":1e3", ": 80"}
+	c17Ports = []string{"", ":", ":0", ":1", ":3478", ":5349", ":65535", ":65536", ":99999", ":-1", ":+5", ":12a", ":99999999999999999999", ":0080", ":0100", ":09", ":4294967297", ":0x50", ":3_478", ":0b11", ":0o17", ":1e3", ": 80",
+		// values that are a valid port modulo 2^16, 2^32 and 2^64
+		":69014", ":4294970774", ":18446744073709555094", ":18446744073709551616", ":55340232221128660197", ":-18446744073709548138", ":00000000000000000000003478"}
 	c17Queries = []string{"", "?", "?transport=udp", "?transport=tcp", "?transport=UDP", "?transport=sctp", "?transport=", "?transport=udp&x=1", "?x=1", "?transport=udp&transport=tcp", "?transport=tcp&transport=udp", "?transport", "?Transport=udp", "?transport=udp&", "?x=1&y=2",
 		"?%zz", "?transport=tcp;x=1", "?transport=tcp&%zz=1", "?foo=1;bar=2", "?transport=udp%", "?%"}
 )
@@ -101,7 +103,10 @@ func c17Oracle(p uriParts) c17Expect {
 		ambiguous = true // a sign is not a digit, but the property only demands the range
 	case ":":
 		return c17Expect{MustReject: true, Why: "empty port"}
-	case ":65536", ":99999", ":-1", ":99999999999999999999", ":4294967297":
+	case ":00000000000000000000003478":
+		e.Port = 3478
+	case ":65536", ":99999", ":-1", ":99999999999999999999", ":4294967297",
+		":69014", ":4294970774", ":18446744073709555094", ":18446744073709551616", ":55340232221128660197", ":-18446744073709548138":
 		return c17Expect{MustReject: true, Why: "port out of range " + p.Port}
 	case ":12a", ":0x50", ":3_478", ":0b11", ":0o17", ":1e3", ": 80":
 		return c17Expect{MustReject: true, Why: "non-numeric port"}
@@ -185,6 +190,23 @@ func uriSoundK(s string, u *stun.URI) (string, string) {
 		return "unsound-uri/transport", fmt.Sprintf("ParseURI(%q) accepted with scheme %v transport %v", s, u.Scheme, u.Proto)
 	}
 	str := u.String()
+	// the text handed out is the caller's: formatting other URIs (or this one again) later does not change it
+	strCopy := strings.Clone(str)
+	other := stun.URI{Scheme: stun.SchemeTypeTURN, Host: "192.0.2.7", Port: 3478, Proto: stun.ProtoTypeTCP}
+	if u.Scheme == stun.SchemeTypeTURN {
+		other = stun.URI{Scheme: stun.SchemeTypeSTUNS, Host: "2001:db8::7", Port: 1, Proto: stun.ProtoTypeTCP}
+	}
+	otherStr := other.String()
+	otherCopy := strings.Clone(otherStr)
+	if str == strCopy {
+		_ = u.String()
+		if otherStr != otherCopy {
+			return "string-changed-by-later-String", fmt.Sprintf("URI%+v.String() returned %q; after String() of ParseURI(%q) that same string reads %q", other, otherCopy, s, otherStr)
+		}
+	}
+	if str != strCopy {
+		return "string-changed-by-later-String", fmt.Sprintf("ParseURI(%q).String() returned %q; after String() of another URI that same string reads %q", s, strCopy, str)
+	}
 	var u2 *stun.URI
 	var err error
 	if p := catch(func() { u2, err = stun.ParseURI(str) }); p != "" {
@@ -641,6 +663,32 @@ func sameHostPort(a, b string) bool {
 	return ha == hb && pa == pb
 }
 
+// c17V6 checks one bracketed IPv6 literal URI: sound, round trip, and the host is the text between the brackets.
+func c17V6(c *Ctx, s string) {
+	rp := map[string]interface{}{"kind": "v6", "s": s}
+	c.Eval(1)
+	c.DistinctByConstruction++
+	var u *stun.URI
+	var err error
+	if pn := catch(func() { u, err = stun.ParseURI(s) }); pn != "" {
+		c.Violation("panic", fmt.Sprintf("ParseURI(%q) %s", s, pn), rp)
+		return
+	}
+	if err != nil {
+		c.Outcome("v6/reject")
+		return
+	}
+	if k, msg := uriSoundK(s, u); msg != "" {
+		c.Violation(k, msg, rp)
+		return
+	}
+	if want := s[strings.Index(s, "[")+1 : strings.Index(s, "]")]; u.Host != want {
+		c.Violation("wrong-fields", fmt.Sprintf("ParseURI(%q) has host %q, the text between the brackets is %q", s, u.Host, want), rp)
+		return
+	}
+	c.Outcome("v6/accept")
+}
+
 func init() {
 	registry["C17"] = propImpl{
 		Run: func(c *Ctx) {
@@ -682,6 +730,12 @@ func init() {
 					continue
 				}
 				c.Outcome("sigma/accept")
+			}
+			// the IPv6 literal shapes of C16
+			for k, s := range c16V6() {
+				if c.Mine(int64(k)) {
+					c17V6(c, s)
+				}
 			}
 			// DialURI: all 5x3 hand-made combinations x hosts, on shard 0..k
 			hosts := []struct {
@@ -756,6 +810,8 @@ func init() {
 						c.Violation(k, msg, map[string]interface{}{"kind": "string", "s": r.S})
 					}
 				}
+			case "v6":
+				c17V6(c, r.S)
 			case "dial":
 				c17DialCheck(c, r.Dial)
 			case "tls":
